@@ -22,8 +22,14 @@ var ErrConfigFailure = gerror.FactoryOf(&gerror.GError{
 // Config is the base configuration object that should be supplied to the generic GetX functions.
 type Config struct {
 	dimensions map[reflect.Type]genum.Enum
-	cached     *xsync.MapOf[string, any]
+	cached     *xsync.MapOf[cacheKey, any]
 	data       map[string]any
+}
+
+// cacheKey identifies a converted value: the same key may be read as several types.
+type cacheKey struct {
+	key string
+	typ reflect.Type
 }
 
 // GetDimension returns the actual value of a dimension.
@@ -63,7 +69,7 @@ func GetOrDefault[T any](cfg *Config, key string, defaultV T) T {
 func getFromCache[T any](cfg *Config, key string) (T, error) {
 	var err error
 	var r T
-	k := key + fmt.Sprintf("%T", r) // add type to key to prevent complicated conversions.
+	k := cacheKey{key: key, typ: reflect.TypeFor[T]()} // add type to key to prevent complicated conversions.
 	v, _ := cfg.cached.Compute(k, func(oldValue any, loaded bool) (newValue any, shouldDelete bool) {
 		if loaded {
 			return oldValue, false
